@@ -36,7 +36,8 @@ ASSUMPTIONS = ['a registration is ONE step (the property injects registrations a
                'a re-initialisation of the registry (Registry.__init__ run again) is ONE step and is modelled in idle states only '
                '(no lookup or registration in flight); Components.__init__ drops every registration (zope, validated by correspondence)']
 TRUSTED = ['translator harness/c15/translate.py (Python ast -> instruction lists, cache key, init program, gen_call_view; fail-closed; '
-           '_find_views, _call_view, Registry.__init__ fully translated, the request-type stores of Router.handle_request as facts, '
+           '_find_views, _call_view, Registry.__init__ fully translated; the request-type stores of Router.handle_request, the key of '
+           'invoke_exception_view and add_route.register_route_request_iface as fail-closed facts; '
            'the rest shape-pinned)',
            'instruction semantics coq/Model/C15.v (validated by correspondence incl. the number of adapter queries per lookup)',
            'zope.interface resolution orders (__sro__) and the adapter registry (oracle input / abstract map)',
@@ -58,7 +59,8 @@ LEVEL_TEXT = ('Machine-checked theorems over every trace (unbounded threads and 
               'lookup sees them (registration and clear are one action; a clear deferred to a later action = the refuted NoClear '
               'program). The resolution orders are a fixed oracle of every theorem: a regenerated fact says nothing in src/pyramid '
               'rewrites __bases__/__sro__ or a class specification, and a rewrite under a warm cache is refuted by a concrete '
-              'history. _call_view is translated and proved equal to its reference '
+              'history. A re-initialisation interleaved with a lookup (outside the quantifier) is refuted for the order of '
+              'Registry.__init__ -- the reason histories re-initialise in idle states. _call_view is translated and proved equal to its reference '
               'model (first candidate that does not raise PredicateMismatch answers). '
               'The theorems are for a cache key that contains the view classifier (regenerated fact cache_key_mode); for the key '
               '(request_iface, context_iface, view_name) freshness is refuted by a concrete history and proved only for histories '
@@ -183,6 +185,23 @@ def facts(src):
     except Exception as e:
         orders_fixed = False
         problems.append('resolution orders of interfaces/specifications are rewritten: %s' % e)
+    # invoke_exception_view: the key of an exception-view lookup; add_route: a route's request interface is made once
+    exc_combined, route_once = True, True
+    try:
+        fn = F.Module(src, 'pyramid/view.py').find('ViewMethodsMixin.invoke_exception_view')
+        if fn is None:
+            raise T.Unknown('invoke_exception_view not found')
+        exc_combined = T.excview_key(fn)['combined']
+    except Exception as e:
+        problems.append('view.py:invoke_exception_view (key of the exception-view lookup) not recognised: %s' % e)
+    try:
+        fn = F.Module(src, 'pyramid/config/routes.py').find('RoutesConfiguratorMixin.add_route.register_route_request_iface')
+        if fn is None:
+            raise T.Unknown('add_route.register_route_request_iface not found')
+        T.route_iface_once(fn)
+    except Exception as e:
+        route_once = False
+        problems.append('config/routes.py: the request interface of a route is not created exactly once: %s' % e)
     # _call_view: the control flow around the candidate calls, regenerated
     gen_cv = T.CV_FALLBACK
     try:
@@ -255,17 +274,21 @@ def facts(src):
            'Definition router_sets_route_iface : bool := %s.\n'
            '(* nothing in src/pyramid rewrites __bases__/__sro__ of an interface or the specification of a class *)\n'
            'Definition spec_orders_immutable : bool := %s.\n'
+           '(* invoke_exception_view looks exception views up with request_iface.combined of the request\'s own attribute *)\n'
+           'Definition excview_uses_combined : bool := %s.\n'
+           '(* add_route: the request interface of a route name is created when there is none, an existing one is left alone *)\n'
+           'Definition route_iface_created_once : bool := %s.\n'
            '(* translated from pyramid.view._call_view: which candidate of the list returned by _find_views answers *)\n'
            '%s'
            % ('; '.join(str(T.VIEW_TYPE_IDS[n]) for n in vt), T.coq_prog(lookup), ', '.join(key_names),
               'KeyFull' if 'view_classifier' in key_names else 'KeyTriad', F.coq_bool('view_types' in key_names),
               mode, fmode, T.coq_prog(register), T.coq_prog(register).replace('clear_mode_registry', 'clear_mode_fallback'),
               F.coq_bool(reads_only), F.coq_bool(mv_stateless),
-              T.coq_prog(init_prog), F.coq_bool(resets), F.coq_bool(sets_route), F.coq_bool(orders_fixed), gen_cv))
+              T.coq_prog(init_prog), F.coq_bool(resets), F.coq_bool(sets_route), F.coq_bool(orders_fixed), F.coq_bool(exc_combined), F.coq_bool(route_once), gen_cv))
     summary.update({'lookup_prog': T.coq_prog(lookup), 'register_prog': T.coq_prog(register).replace('clear_mode_registry', mode),
                     'clear_mode': mode, 'clear_mode_fallback': fmode, 'init_prog': T.coq_prog(init_prog).replace('clear_mode_registry', mode),
                     'router_resets_iface': resets, 'router_sets_route_iface': sets_route,
-                    'gen_call_view_is_reference_text': gen_cv == T.CV_FALLBACK, 'spec_orders_immutable': orders_fixed, 'view_types': vt, 'params': T.flat_params(lookup), 'call_view_reads_only': reads_only, 'multiview_stateless': mv_stateless, 'cache_key': key_names,
+                    'gen_call_view_is_reference_text': gen_cv == T.CV_FALLBACK, 'spec_orders_immutable': orders_fixed, 'excview_uses_combined': exc_combined, 'route_iface_created_once': route_once, 'view_types': vt, 'params': T.flat_params(lookup), 'call_view_reads_only': reads_only, 'multiview_stateless': mv_stateless, 'cache_key': key_names,
                     'cache_key_mode': 'KeyFull' if 'view_classifier' in key_names else 'KeyTriad',
                     'theorems_applying': ('C15_lookup_fresh (full key)' if 'view_classifier' in key_names else
                                           'C15_lookup_fresh_ordinary_only_partial + C15_lookup_fresh_KeyTriad_refuted')})
@@ -1089,6 +1112,11 @@ def to_wire(case):
                 if chain is None:
                     chain = [m]
                 ops.append([3, oid, [st['cl'], qctx(st), st['name']], chain])
+                ans.append([oid, book.table(st)])
+            elif st['t'] == 'Q' and st['cl'] == 1:
+                # request.invoke_exception_view on a request whose request type is IRequest (req 1) or the route's
+                # interface (req 3): the model derives the key (combined interface) from the regenerated fact
+                ops.append([3, oid, [1, qctx(st), st['name']], [[I_ROUTE] if st['req'] == 3 else []]])
                 ans.append([oid, book.table(st)])
             elif st['t'] == 'Q':
                 ops.append([0, oid, [st['cl'], st['req'], qctx(st), st['name']], []])
